@@ -114,7 +114,7 @@ theorem callFn_sim (c : ICtx) (D : Env) (a : Nat) (args : List Seq) :
     | none =>
       simp only [eraseObj, FObj.nargsOk, FObj.arity, hc, hf, pure_bind]
       by_cases h : args.length = b.arity
-      · simp only [h, BEq.rfl, if_true, Option.isSome_none, Bool.false_and, Bool.false_eq_true, if_false]
+      · simp only [h, BEq.rfl, if_true]
         exact builtin_call_sim o b args D
       · have h' : (b.arity == args.length) = false := by
           simp only [beq_eq_false_iff_ne, ne_eq]; exact fun h2 => h h2.symm
@@ -126,14 +126,8 @@ theorem callFn_sim (c : ICtx) (D : Env) (a : Nat) (args : List Seq) :
       · simp only [h, BEq.rfl, if_true, pure_bind]
         generalize fill pat args = full
         by_cases hl : full.length = b.arity
-        · simp only [hl, if_true, Option.isSome_some, Bool.true_and]
-          by_cases hq : (b == Builtin.exists_ || b == Builtin.empty_) = true
-          · simp only [hq, if_true]
-            apply Sim.flag_bind
-            intro hfl
-            simp [Flags.none] at hfl
-          · simp only [hq, if_false]
-            exact builtin_call_sim o b full D
+        · simp only [hl, if_true]
+          exact builtin_call_sim o b full D
         · simp only [hl, if_false]
           exact Sim.thr _ _
       · have h' : (holes pat == args.length) = false := by
@@ -143,13 +137,15 @@ theorem callFn_sim (c : ICtx) (D : Env) (a : Nat) (args : List Seq) :
   | inline ps body =>
     cases hf : o.fixed with
     | none =>
-      simp only [eraseObj, FObj.nargsOk, FObj.arity, hc, hf, if_true, pure_bind]
-      apply currentVars_sim
-      intro e
+      simp only [eraseObj, FObj.nargsOk, FObj.arity, hc, hf, pure_bind]
       by_cases h : args.length = ps.length
-      · simp only [h, if_true]
+      · simp only [h, BEq.rfl, if_true]
+        apply currentVars_sim
+        intro e
         exact runBody_sim cfg ev sev hev c D body _ _ _
-      · simp only [h, if_false]
+      · have h' : (ps.length == args.length) = false := by
+          simp only [beq_eq_false_iff_ne, ne_eq]; exact fun h2 => h h2.symm
+        simp only [h', Bool.false_eq_true, if_false, h]
         exact Sim.thr _ _
     | some pat =>
       simp only [eraseObj, FObj.nargsOk, FObj.arity, hc, hf]
@@ -170,9 +166,10 @@ theorem callFn_sim (c : ICtx) (D : Env) (a : Nat) (args : List Seq) :
         exact Sim.thr _ _
 
 omit hev in
-theorem nargsOk_of_arity (o : FObj) (n : Nat) (h : n = o.arity) : o.nargsOk n = true := by
+theorem nargsOk_iff (o : FObj) (n : Nat) : o.nargsOk n = true ↔ n = o.arity := by
   unfold FObj.nargsOk
-  split <;> simp [h]
+  simp only [beq_iff_eq]
+  exact ⟨fun h => h.symm, fun h => h.symm⟩
 
 theorem partialApply_sim (c : ICtx) (D : Env) (a : Nat) (args : List (Option Expr)) :
     Sim Prod.fst (partialApply cfg ev c D a args) (specPartial sev (eraseCtx c) a args) := by
@@ -180,9 +177,7 @@ theorem partialApply_sim (c : ICtx) (D : Env) (a : Nat) (args : List (Option Exp
   apply Sim.bnd (Sim.getObj a)
   intro o
   by_cases h : args.length = (eraseObj o).arity
-  · rw [if_pos (nargsOk_of_arity o _ h), if_pos h]
-    apply Sim.flag_bind
-    intro _
+  · rw [if_pos ((nargsOk_iff o _).mpr h), if_pos h]
     apply currentVars_sim
     intro e
     apply Sim.bnd (evalArgs_sim ev sev hev c args D)
@@ -190,15 +185,8 @@ theorem partialApply_sim (c : ICtx) (D : Env) (a : Nat) (args : List (Option Exp
     apply Sim.bnd (p := id) (Sim.alloc _)
     intro n
     exact Sim.ret _ _ _ rfl
-  · rw [if_neg h]
-    by_cases hn : o.nargsOk args.length = true
-    · rw [if_pos hn]
-      apply Sim.flag_bind
-      intro hfl
-      have h' : ¬ args.length = o.arity := h
-      simp [Flags.none, h'] at hfl
-    · rw [if_neg hn]
-      exact Sim.thr _ _
+  · rw [if_neg h, if_neg (fun hn => h ((nargsOk_iff o _).mp hn))]
+    exact Sim.thr _ _
 
 theorem funArgEval_sim (c : ICtx) (D : Env) (f : Expr) :
     Sim Prod.fst (funArgEval ev c D f) (do let v ← sev f (eraseCtx c); SM.single v) := by
@@ -206,32 +194,6 @@ theorem funArgEval_sim (c : ICtx) (D : Env) (f : Expr) :
   apply Sim.bnd (hev f c D)
   intro v
   exact Sim.map (Sim.single _) _ (fun _ => rfl)
-
-theorem funArg_sim (c : ICtx) (D : Env) (f : Expr) :
-    Sim Prod.fst (funArg ev c D f) (specFunArg sev (eraseCtx c) f) := by
-  cases f
-  case fnE t ps body =>
-    simp only [funArg, specFunArg]
-    exact Sim.map (Sim.alloc _) _ (fun _ => rfl)
-  all_goals
-    simp only [funArg, specFunArg]
-    exact funArgEval_sim ev sev hev c D _
-
-omit hev in
-theorem noteArity_bind_sim {γ δ} {q : γ → δ} (a n : Nat) {f : Unit → IM γ} {g : Nat → SM δ}
-    (h : Sim q (f ()) (g a)) :
-    Sim q (noteArity a n >>= f)
-      ((do let o ← SM.getObj a; if o.arity = n then pure a else SM.throw .XPTY0004) >>= g) := by
-  unfold noteArity
-  simp only [bind_assoc]
-  apply Sim.bnd (Sim.getObj a)
-  intro o
-  apply Sim.flag_bind
-  intro hfl
-  simp only [Flags.none, Flags.mk.injEq, decide_eq_false_iff_not, Decidable.not_not, and_true,
-    true_and] at hfl
-  simp only [eraseObj_arity, hfl, if_true, pure_bind]
-  exact h
 
 omit hev in
 theorem checkArity_bind_sim {γ δ} {q : γ → δ} (a n : Nat) {f : Unit → IM γ} {g : Nat → SM δ}
@@ -251,37 +213,13 @@ theorem checkArity_bind_sim {γ δ} {q : γ → δ} (a n : Nat) {f : Unit → IM
     rw [this]
     exact Sim.thr _ _
 
-theorem funArgNote_sim (c : ICtx) (D : Env) (f : Expr) (n : Nat) :
-    Sim Prod.fst (funArgNote ev c D f n) (specFunArgN sev (eraseCtx c) f n) := by
-  unfold funArgNote specFunArgN
-  apply Sim.bnd (funArg_sim ev sev hev c D f)
-  intro fa
-  have := noteArity_bind_sim (q := Prod.fst) fa.1 n (f := fun _ => pure fa) (g := pure)
-    (Sim.ret _ _ _ rfl)
-  rwa [bind_pure] at this
-
 theorem funArgCheck_sim (c : ICtx) (D : Env) (f : Expr) (n : Nat) :
     Sim Prod.fst (funArgCheck ev c D f n) (specFunArgN sev (eraseCtx c) f n) := by
-  unfold funArgCheck specFunArgN
-  apply Sim.bnd (funArg_sim ev sev hev c D f)
-  intro fa
-  have := checkArity_bind_sim (q := Prod.fst) fa.1 n (f := fun _ => pure fa) (g := pure)
-    (Sim.ret _ _ _ rfl)
-  rwa [bind_pure] at this
-
-theorem funArgEvalNote_sim (c : ICtx) (D : Env) (f : Expr) (n : Nat) :
-    Sim Prod.fst (funArgEvalNote ev c D f n) (specFunArgEN sev (eraseCtx c) f n) := by
-  unfold funArgEvalNote specFunArgEN
+  unfold funArgCheck specFunArgN specFunArg
   have h1 := funArgEval_sim ev sev hev c D f
-  have : (do let v ← sev f (eraseCtx c); let a ← SM.single v; let o ← SM.getObj a
-             if o.arity = n then pure a else SM.throw .XPTY0004) =
-         ((do let v ← sev f (eraseCtx c); SM.single v) >>= fun a => do
-             let o ← SM.getObj a; if o.arity = n then pure a else SM.throw .XPTY0004) := by
-    simp only [bind_assoc]
-  rw [this]
   apply Sim.bnd h1
   intro fa
-  have := noteArity_bind_sim (q := Prod.fst) fa.1 n (f := fun _ => pure fa) (g := pure)
+  have := checkArity_bind_sim (q := Prod.fst) fa.1 n (f := fun _ => pure fa) (g := pure)
     (Sim.ret _ _ _ rfl)
   rwa [bind_pure] at this
 
@@ -412,84 +350,6 @@ theorem hofKeys_sim (c : ICtx) (a : Nat) : ∀ (xs : Seq) (D : Env) (acc : List 
     intro k
     have := hofKeys_sim c a xs r.2 (acc ++ [(x, k)])
     simpa only [List.append_assoc, List.singleton_append, id] using this
-
-/-! ### fn:apply -/
-
-omit hev in
-theorem specCall_arity_err (a : Nat) (args : List Seq) (h : SHeap) (o : SObj) (ho : h[a]? = some o)
-    (hne : args.length ≠ o.arity) : specCall sev a args h = .error .XPTY0004 := by
-  unfold specCall
-  simp only [SM.bind_def, SM.getObj, ho]
-  unfold SObj.arity at hne
-  cases hf : o.fixed with
-  | none =>
-    simp only [hf] at hne
-    cases hc : o.code with
-    | builtin b =>
-      simp only [hc] at hne
-      simp only [SM.pure_bind, hne, if_false]
-      rfl
-    | inline ps body =>
-      simp only [hc] at hne
-      simp only [SM.pure_bind, hne, if_false]
-      rfl
-  | some pat =>
-    simp only [hf] at hne
-    simp only [hne, if_false]
-    rfl
-
-theorem applyCall_sim (c : ICtx) (D : Env) (a : Nat) (vals : List Seq) :
-    Sim Prod.fst
-      (do let o ← IM.getObj a; IM.applyErr (o.arity == vals.length) (callFn cfg ev c D a vals))
-      (do let o ← SM.getObj a
-          if vals.length = o.arity then specCall sev a vals else SM.throw .FOAP0001) := by
-  intro st hfl
-  have hcs := callFn_sim cfg ev sev hev c D a vals st
-  rw [IM.bind_def] at hfl ⊢
-  rw [SM.bind_def]
-  simp only [IM.getObj, SM.getObj, eraseHeap_get] at hfl ⊢
-  cases ho : st.heap[a]? with
-  | none => simp [Except.map]
-  | some o =>
-    simp only [ho, Option.map_some, Flags.none_or] at hfl ⊢
-    by_cases hl : vals.length = (eraseObj o).arity
-    · have hl' : vals.length = o.arity := hl
-      have hb : (o.arity == vals.length) = true := by simp [hl']
-      rw [if_pos hl]
-      simp only [hb] at hfl ⊢
-      unfold IM.applyErr at hfl ⊢
-      generalize callFn cfg ev c D a vals st = r at hfl hcs ⊢
-      obtain ⟨fl, res⟩ := r
-      cases res with
-      | ok v => simp only at hfl ⊢; exact hcs hfl
-      | error e =>
-        cases e <;> simp only at hfl ⊢ <;> first | exact hcs hfl | skip
-        obtain ⟨_, h2⟩ := (Flags.or_none_iff _ _).mp hfl
-        simp [Flags.none] at h2
-    · have hl' : ¬ vals.length = o.arity := hl
-      have hb : (o.arity == vals.length) = false := by
-        simp only [beq_eq_false_iff_ne, ne_eq]; exact fun h2 => hl' h2.symm
-      have hspec := specCall_arity_err sev a vals (eraseHeap st.heap) (eraseObj o)
-        (by rw [eraseHeap_get, ho]; rfl) hl
-      rw [if_neg hl]
-      simp only [hb] at hfl ⊢
-      unfold IM.applyErr at hfl ⊢
-      generalize callFn cfg ev c D a vals st = r at hfl hcs ⊢
-      obtain ⟨fl, res⟩ := r
-      have hnone : fl = Flags.none := by
-        cases res with
-        | ok v => exact hfl
-        | error e =>
-          cases e <;> simp only at hfl <;> first | exact hfl | skip
-          exact ((Flags.or_none_iff _ _).mp hfl).1
-      have h3 := hcs hnone
-      rw [hspec] at h3
-      cases res with
-      | ok v => simp [Except.map] at h3
-      | error e =>
-        simp only [Except.map, Except.error.injEq] at h3
-        subst h3
-        simp [SM.throw, Except.map]
 
 /-! ### one layer -/
 
@@ -637,13 +497,13 @@ theorem step_sim (e : Expr) (c : ICtx) (D : Env) :
     simpa only [List.nil_append, bind_pure] using this
   | forEach s f =>
     simp only [step, specStep]
-    apply Sim.bnd (funArgNote_sim ev sev hev c D f 1); intro fa
+    apply Sim.bnd (funArgCheck_sim ev sev hev c D f 1); intro fa
     apply Sim.bnd (hev s c fa.2); intro xs
     have := hofForEach_sim cfg ev sev hev c fa.1 xs.1 xs.2 []
     simpa only [List.nil_append, bind_pure] using this
   | filter s f =>
     simp only [step, specStep]
-    apply Sim.bnd (funArgNote_sim ev sev hev c D f 1); intro fa
+    apply Sim.bnd (funArgCheck_sim ev sev hev c D f 1); intro fa
     apply Sim.bnd (hev s c fa.2); intro xs
     have := hofFilter_sim cfg ev sev hev c fa.1 xs.1 xs.2 []
     simpa only [List.nil_append, bind_pure] using this
@@ -673,7 +533,7 @@ theorem step_sim (e : Expr) (c : ICtx) (D : Env) :
       exact Sim.ret _ _ _ rfl
   | sortK s f =>
     simp only [step, specStep]
-    apply Sim.bnd (funArgEvalNote_sim ev sev hev c D f 1); intro fa
+    apply Sim.bnd (funArgCheck_sim ev sev hev c D f 1); intro fa
     apply Sim.bnd (hev s c fa.2); intro xs
     unfold specSort
     by_cases h : xs.1.length < 2
@@ -683,12 +543,21 @@ theorem step_sim (e : Expr) (c : ICtx) (D : Env) :
       have := hofKeys_sim cfg ev sev hev c fa.1 xs.1 xs.2 []
       simp only [List.nil_append, bind_pure] at this
       apply Sim.bnd this; intro ks
-      exact Sim.ret _ _ _ (sortByKey_eq _)
+      cases keysUniform (ks.1.map (·.2))
+      · simp only [Bool.false_eq_true, if_false]; exact Sim.thr _ _
+      · simp only [if_true]; exact Sim.ret _ _ _ (sortByKey_eq _)
   | apply f ms =>
-    simp only [step, specStep]
-    apply Sim.bnd (funArg_sim ev sev hev c D f); intro fa
+    simp only [step, specStep, specFunArg]
+    apply Sim.bnd (funArgEval_sim ev sev hev c D f); intro fa
     apply Sim.bnd (evalList_sim ev sev hev c _ _); intro vals
-    exact applyCall_sim cfg ev sev hev c _ _ _
+    apply Sim.bnd (Sim.getObj _); intro o
+    by_cases h : vals.1.length = (eraseObj o).arity
+    · have h' : o.arity = vals.1.length := h.symm
+      rw [if_pos h, if_pos h']
+      exact callFn_sim cfg ev sev hev c _ _ _
+    · have h' : ¬ o.arity = vals.1.length := fun h2 => h h2.symm
+      rw [if_neg h, if_neg h']
+      exact Sim.thr _ _
 
 end
 
